@@ -97,30 +97,41 @@ static inline R wrap_pi(R a) { a = fmodl(a, 2 * PI_L); if (a > PI_L) a -= 2 * PI
 // Forward-error bound of the interpolation formula
 //     R = (sin(theta' - a phi') x + sin(a phi') z) / sin(theta'),   theta' = acos(fl(dot(x,z))),  phi' = theta' + k pi
 // evaluated in T with unit roundoff u, for inputs of length 1 +- 2u, as a distance on the sphere (K = 8 margin):
-//   A  = coefficient scale: every product, the division, the input norms, libm's sin          -> 4 (|k0| + |k1|) + 2
+//   A  = coefficient scale: every product, the division, the input norms, libm's sin          -> 2 (|k0| + |k1|) + 1
 //   B  = rounding of the sine arguments a*phi and theta - a*phi (absolute error u |arg| each,
-//        amplified by 1/sin(theta)); for small arguments |sin| <= |arg| so this stays relative   -> 3 (|psi| + |theta - psi|) / sin(theta)
-//   D  = the angle itself: fl(dot) is off by <= 4u, acos turns that into 4u / sin(theta) (+ 2u theta), and the result
-//        moves by |dR/dtheta'| = |((1-a) sin psi, a cos psi - sin psi cot theta)| per unit of angle error.
+//        amplified by 1/sin(theta)); for small arguments |sin| <= |arg| so this stays relative   -> 1.5 (|psi| + |theta - psi|) / sin(theta)
+//   D  = the angle itself: fl(dot) is off by dc <= 4u, acos turns that into 1.5 dc / sin(theta) (+ 2u theta) as long as
+//        sin^2(theta) >= 8 dc (linearisation good to 10%), and the result moves by
+//        |dR/dtheta'| = |((1-a) sin psi, a cos psi - sin psi cot theta)| per unit of angle error.
 // With k = 0 the D term is O(a^3 theta u) for small theta (the formula tends to the chord). With k != 0 it grows like
-// u |sin psi| / sin^2(theta): the spin formula is conditioned by 1/sin^2, which is why those cases are only *decided* when the
-// bound is below the cap, and separately checked for gross spin loss.
-// `chord` adds the documented linear fallback's distance from the arc, |a(1-a)| theta^2/2 + |a(a^2-1)| theta^3/6 (x2), where the
-// fallback may be taken (cos(theta) within rounding of or above 1 - eps).
-struct Tol { R total, k0, k1, sens; };
-template <class T> static inline Tol arc_tol(const Arc& A, R a, int k, bool chord) {
-	const R u = U<T>(), th = A.theta;
+// u |sin psi| / sin^2(theta): the spin formula is conditioned by 1/sin^2.
+// Where sin^2(theta) < 8 dc = 16 eps the computed cosine may be anything between 1 - 16 eps and 1 (resp. -1): nothing is decided
+// (total = infinity) next to antipodal inputs and for k != 0; next to parallel inputs with k = 0 either branch of the implementation
+// (documented linear fallback for cos > 1 - eps, or the formula with any theta'^2 <= theta^2 + 16u) stays within
+//   chord(theta) = |a(1-a)| theta^2/2 + |a(a^2-1)| theta^3/6          (distance of the chord point (1-a)x + az from the arc point), x2
+//   + |a(1-a)| (|1+a| + |2-a|) theta'^2 / 6                           (distance of the formula from the chord point), x2
+// of the arc point, in addition to the A and B terms.
+struct Tol { R total, k0, k1, sens; bool near_parallel; };
+template <class T> static inline Tol arc_tol(const Arc& A, R a, int k) {
+	const R u = U<T>(), th = A.theta, INF = 1e300L;
 	const R phi = th + k * PI_L, psi = a * phi;
 	Tol t;
-	if (A.degenerate || A.sn <= 0) { t.k0 = rabs(1 - a); t.k1 = rabs(a); t.sens = 0; t.total = 8 * u * (4 * (t.k0 + t.k1) + 2); return t; }
+	t.near_parallel = A.cs > 0 && th * th <= 16 * EPS<T>();
+	if (A.degenerate || A.sn <= 0) { t.k0 = rabs(1 - a); t.k1 = rabs(a); t.sens = 0; t.total = (th == 0 && k == 0) ? 8 * u * (2 * (t.k0 + t.k1) + 1) : INF; return t; }
 	t.k0 = sinl(th - psi) / A.sn; t.k1 = sinl(psi) / A.sn;
-	R Aterm = 4 * (rabs(t.k0) + rabs(t.k1)) + 2;
-	R Bterm = 3 * (rabs(psi) + rabs(th - psi)) / A.sn;
+	R Aterm = 2 * (rabs(t.k0) + rabs(t.k1)) + 1;
+	R Bterm = 1.5L * (rabs(psi) + rabs(th - psi)) / A.sn;
 	R s1 = (1 - a) * sinl(psi), s2 = a * cosl(psi) - sinl(psi) * A.cs / A.sn;
 	t.sens = sqrtl(s1 * s1 + s2 * s2);
-	R dth = 4 * u / A.sn + 2 * u * th;
+	if (A.sn * A.sn <= 16 * EPS<T>()) {
+		if (!t.near_parallel || k != 0) { t.total = INF; return t; }
+		R chord = rabs(a * (1 - a)) * th * th / 2 + rabs(a * (a * a - 1)) * th * th * th / 6;
+		R form = rabs(a * (1 - a)) * (rabs(1 + a) + rabs(2 - a)) * (th * th + 16 * u) / 6;
+		t.total = 8 * u * (Aterm + Bterm) + 2 * chord + 2 * form;
+		return t;
+	}
+	R dth = 1.5L * 4 * u / A.sn + 2 * u * th;
 	t.total = 8 * (u * (Aterm + Bterm) + t.sens * dth);
-	if (chord) t.total += 2 * (rabs(a * (1 - a)) * th * th / 2 + rabs(a * (a * a - 1)) * th * th * th / 6);
 	return t;
 }
 
